@@ -483,6 +483,42 @@ def R5_exact_remainders(run):
     for p in INCR_PRIMS:
         fn = facts.need_fn(p)
         check_remainder_exact(run, "R5", fn)
+    # the 256-bit division hands back a literal zero remainder only for a zero dividend (when the remainder is asked for):
+    # every other early exit must return the true remainder, or the ceil forms above silently become floors
+    dv = facts.need_fn("math::u256_math::U256Muldiv::div")
+    run.touch(dv)
+    fl = preach.flow(dv, {"return_remainder": True})
+    pvd = prov_of(dv, {"return_remainder": True})
+    zero_at = [at for at in A.atoms(dv) if at.cond() and at.cond()[0] == "Eq" and const_val(at.cond()[2]) == 0 and is_call(at.cond()[1], "num_words") and
+               not mentions(at.cond()[1], lambda s_: s_[0] == "param" and s_[1] == "divisor")]
+    ok = len(zero_at) == 1
+    bad_sites = []
+    if ok:
+        za = zero_at[0]
+        # blocks reachable when the dividend is NOT zero, under return_remainder = true
+        seen, work = set(), [0]
+        succ = dv.succ()
+        while work:
+            b_ = work.pop()
+            if b_ in seen:
+                continue
+            seen.add(b_)
+            for n_ in succ[b_]:
+                if (b_, n_) not in fl.edge_feasible:
+                    continue
+                if b_ == za.block and n_ in za.true_targets and n_ not in za.false_targets:
+                    continue
+                work.append(n_)
+        for d_ in pvd.defs.get(0, []):
+            if d_[2] is not None or d_[0] not in seen:
+                continue
+            t_ = strip(pvd._site(d_, 0))
+            if t_[0] == "tuple" and len(t_[1]) == 2:
+                r_ = strip(t_[1][1])
+                if r_[0] == "call" and r_[1].endswith("U256Muldiv::new") and [const_val(x) for x in r_[2]] == [0, 0]:
+                    bad_sites.append(dv.blocks[d_[0]]["s"][d_[1]]["l"] if d_[1] < len(dv.blocks[d_[0]]["s"]) else d_[0])
+    run.check("R5", "div-remainder-contract", ok and not bad_sites, "U256Muldiv::div(.., return_remainder = true) can return a literal zero remainder for a non-zero dividend (source lines %s)" % bad_sites,
+              loc=dv.loc(), detail="zero remainder literal only when the dividend is zero")
     # the (lower, upper) ordering every delta is computed from
     po = facts.need_fn(TM + "increasing_price_order")
     run.touch(po)
